@@ -46,6 +46,13 @@ func Load(repo string, patterns []string) (*Verifier, error) {
 	v := &Verifier{repo: repo, contracts: map[string]*Contract{}, ifaceC: map[string]*Contract{}, clauseFns: map[string]*ssa.Function{},
 		wsCache: map[*ssa.Function]map[string]bool{}, globals: map[*ssa.Global]uint64{}, loopCache: map[*ssa.Function][]*loopInfo{},
 		used: map[*Contract]bool{}, assumedAt: map[string]bool{}, genFiles: map[string]string{}, files: map[string]*ast.File{}, srcs: map[string][]byte{}}
+	// contracts of dependencies are needed at their call sites: every package of the repository
+	// that has contract files is loaded as a root
+	for _, extra := range discoverPackages(repo, "//@") {
+		if !has(patterns, extra) {
+			patterns = append(patterns, extra)
+		}
+	}
 	// phase 1
 	cfg1 := &packages.Config{Mode: packages.LoadSyntax, Dir: repo, BuildFlags: []string{"-tags=verif"}, Env: goEnv()}
 	pk1, err := packages.Load(cfg1, patterns...)
@@ -412,6 +419,10 @@ func (v *Verifier) VerifyFunc(c *Contract) (res *FuncResult) {
 		ex.assumeWF(st, True, pv)
 		fr.freeVars = append(fr.freeVars, pv)
 	}
+	if c.Entry {
+		// a request handler starts without holding any mutex
+		st.setComp(compHeld, ConstArr(heldSort, False))
+	}
 	fr.entry = st.clone()
 	for _, r := range c.Requires {
 		t := ex.evalClause(fr, st, True, r, nil)
@@ -441,6 +452,12 @@ func (v *Verifier) VerifyFunc(c *Contract) (res *FuncResult) {
 			rvals = r.val.(VTuple).F
 		}
 		for _, e := range c.Ensures {
+			if e.Assumed {
+				// an assumed post-condition (e.g. the behaviour of a remote peer, proved elsewhere): used by
+				// callers, not checked against this body; listed in the evidence
+				v.assumedAt[c.Func+": assumed ensures "+e.Text] = true
+				continue
+			}
 			t := ex.evalClause(fr, r.st, r.pc, e, rvals)
 			ex.oblige(fr, "post", e.Text, fn.Pos(), r.pc, t, e.Props)
 		}
@@ -456,6 +473,15 @@ func (v *Verifier) VerifyFunc(c *Contract) (res *FuncResult) {
 		}
 		if len(r.st.defers) != 0 {
 			panic(unsupported("pending defers at return"))
+		}
+		// lock typestate: every return leaves exactly the mutexes held that were held at entry
+		if h, ok := r.st.heap[compHeld]; ok {
+			h0 := fr.entry.comp(compHeld, heldSort)
+			if h != h0 {
+				l := Bound("l", BV64)
+				ex.oblige(fr, "lock", "a mutex acquired by this function is still held at return (or one held at entry was released)", fn.Pos(), r.pc,
+					Forall([]*Term{l}, Eq(Select(h, l), Select(h0, l))), ex.safetyProps)
+			}
 		}
 		ex.frameObligations(fr, r, targets, c)
 	}
@@ -481,13 +507,19 @@ func (ex *Exec) frameObligations(fr *Frame, r retInfo, targets []modTarget, c *C
 	sort.Strings(names)
 	next0 := fr.entry.next
 	for _, n := range names {
-		if strings.HasPrefix(n, "B|") {
-			continue // boxes are immutable once created
+		if strings.HasPrefix(n, "B|") || strings.HasPrefix(n, "G|") {
+			continue // boxes are immutable once created; ghost components are havocked at call sites
 		}
 		srt := compSorts[n]
 		now := r.st.heap[n]
 		was := fr.entry.comp(n, srt)
 		if now == was {
+			continue
+		}
+		if onlyFreshStores(now, was, next0, 0) {
+			// every update of this component is at an object allocated by this function: objects that
+			// existed at entry are untouched (decided syntactically)
+			ex.recordTrivial(fr, "frame", n, fr.fn.Pos(), c.Props)
 			continue
 		}
 		i := Bound("i", srt.Idx)
@@ -587,4 +619,49 @@ func (v *Verifier) needsFrame(c *Contract) bool {
 		}
 	}
 	return v.modularCallees[c]
+}
+
+// onlyFreshStores: `now` is `was` updated only at identifiers >= entryNext (objects allocated later)
+func onlyFreshStores(now, was, entryNext *Term, depth int) bool {
+	if now == was {
+		return true
+	}
+	if depth > 4000 {
+		return false
+	}
+	switch now.Op {
+	case "store":
+		if !freshID(now.Args[1], entryNext) {
+			return false
+		}
+		return onlyFreshStores(now.Args[0], was, entryNext, depth+1)
+	case "ite":
+		return onlyFreshStores(now.Args[1], was, entryNext, depth+1) && onlyFreshStores(now.Args[2], was, entryNext, depth+1)
+	}
+	return false
+}
+
+// freshID: idx is entryNext + k (k >= 0) or an offset of a later allocation counter symbol
+func freshID(idx, entryNext *Term) bool {
+	b, k, ok := splitAddConst(idx)
+	if !ok || !nextSyms[b] {
+		return false
+	}
+	eb, ek, _ := splitAddConst(entryNext)
+	if b == eb {
+		return k >= ek
+	}
+	// later counters are >= the counter they replaced
+	cur := b
+	for d := 0; d < 64; d++ {
+		g, ok := nextGE[cur]
+		if !ok {
+			return false
+		}
+		if g.base == eb && g.k >= ek {
+			return true
+		}
+		cur = g.base
+	}
+	return false
 }
